@@ -107,7 +107,7 @@ func addNested(t *document.Table, n *DocNested, width int) {
 
 func (n *DocNested) texts(out *[]string) {
 	for _, row := range n.Table {
-		*out = append(*out, "[" + strings.Join(row, "|") + "]")
+		*out = append(*out, "["+strings.Join(row, "|")+"]")
 	}
 	if n.Inner != nil {
 		n.Inner.texts(out)
